@@ -195,8 +195,9 @@ def isIntLit : SExpr → Bool
   | .int _ => true
   | _ => false
 
-/-- node `i` is a REDUCTION of the fragment: a chain of reductions with constant bounds at the
-    root of the expression, over a reduction-free expression of the fragment; the variables are
+/-- node `i` is a REDUCTION of the fragment: a chain of reductions at the root of the expression,
+    over a reduction-free expression of the fragment; the bounds are reduction-free expressions of
+    the fragment over the bindings (constants; for a CSR product, entries of the row pointer); the variables are
     distinct, are not names of bindings, and are listed in the chain's order by both descriptors;
     every bound is hoisted (what `is_quasi_affine` of the installed loopy makes of every bound) -/
 def redNode (g : LGraph) (i : Nat) : Bool :=
@@ -206,7 +207,8 @@ def redNode (g : LGraph) (i : Nat) : Bool :=
     let body := (splitChain e).2
     let vars := ch.map (·.2.1)
     !isEmptyShape shape && !ch.isEmpty &&
-      ch.all (fun c => isIntLit c.2.2.1 && isIntLit c.2.2.2) &&
+      ch.all (fun c => exprOK shape.length c.2.2.1 && ranksOK (rankIn g binds) c.2.2.1 &&
+        exprOK shape.length c.2.2.2 && ranksOK (rankIn g binds) c.2.2.2) &&
       decide vars.Nodup && vars.all (fun v => !(binds.map (·.1)).contains v) &&
       (uo == vars) && (rvars.map (·.name) == vars) &&
       rvars.all (fun rv => !rv.loAffine && !rv.hiAffine) &&
@@ -225,10 +227,13 @@ def fragmentCheckR (g : LGraph) : Bool := wfG g && (List.range g.size).all (supp
 /-- why node `i` is outside the fragment with reductions (for the driver's report) -/
 def whyNotR (g : LGraph) (i : Nat) : String :=
   match g.get i with
-  | .indexLambda shape e _ _ _ uo rvars =>
+  | .indexLambda shape e binds _ _ uo rvars =>
     if uo.isEmpty && rvars.isEmpty then whyNot g i
     else if isEmptyShape shape then "empty-axis"
-    else if !((splitChain e).1.all fun c => isIntLit c.2.2.1 && isIntLit c.2.2.2) then "reduction-bounds"
+    else if !((splitChain e).1.all fun c => exprOK shape.length c.2.2.1 && ranksOK (rankIn g binds) c.2.2.1 &&
+        exprOK shape.length c.2.2.2 && ranksOK (rankIn g binds) c.2.2.2) then
+      (if (splitChain e).1.any (fun c => hasBool c.2.2.1 || hasBool c.2.2.2) then "boolean-constant"
+       else "reduction-bounds")
     else if hasBool (splitChain e).2 then "boolean-constant"
     else "reduction-other"
   | _ => whyNot g i
